@@ -42,6 +42,9 @@ FINDINGS = [
     {"id": "D8c-studyAreaDescription", "property": "C10", "key": "C10:unknown-child:relatedProjectRule:studyAreaDescription",
      "rule": "relatedProjectRule", "child": "studyAreaDescription",
      "what": "relatedProjectRule permits child 'studyAreaDescription' whose element mapping is commented out in rule.py"},
+    {"id": "D16-metadata-references", "property": "C16", "key": "C16:metadata-references",
+     "what": "a references node inside a metadata element naming the id of another metadata element (itself below metadata, two children): "
+             "the tree validates before expansion and fails afterwards (metadata then has two children); expansion is not opaque to metadata content"},
 ]
 out = {"findings": FINDINGS, "fixed": []}
 for props, rid, subj, what in FIXED:
